@@ -175,7 +175,7 @@ func Mutate(repo, prop string, jobs, max int, seed int) (MutationSummary, error)
 	if r == nil && prop != "any" {
 		return sum, fmt.Errorf("no rule %s", prop)
 	}
-	p, err := an.LoadFast(repo, nil)
+	p, err := an.LoadNormalized(repo, nil, true)
 	if err != nil {
 		return sum, err
 	}
